@@ -59,7 +59,7 @@ def largest_fraction(verts, edges):
     return Fraction(max(len(c) for c in comps), len(verts))
 
 
-def check_graph(res, verts, edges, phi, desc, star=False):
+def check_graph(res, verts, edges, phi, desc, star=False, rewired_from=None):
     import networkx as nx
     from gcmpy.tools.bond_percolate import bond_percolate
     g = nx.Graph()
@@ -72,8 +72,21 @@ def check_graph(res, verts, edges, phi, desc, star=False):
     first = []
     law_by_kept = {}
 
+    holder = {"g": g}
+
     def body():
-        return bond_percolate(g, float(phi) if phi.denominator != 1 else (int(phi) if phi in (0, 1) else phi))
+        if rewired_from is not None:
+            # history on ONE graph object: percolated once as `rewired_from` (one fixed scripted schedule), then edited
+            # in place into `edges` (same numbers of vertices and edges), and only the second call is explored
+            h = nx.Graph()
+            h.add_nodes_from(verts)
+            h.add_edges_from(enumr.fresh_edges(rewired_from))
+            with engine.scripted_prefix():
+                bond_percolate(h, 0.5)
+            h.remove_edges_from(list(h.edges()))
+            h.add_edges_from(enumr.fresh_edges(edges))
+            holder["g"] = h
+        return bond_percolate(holder["g"], float(phi) if phi.denominator != 1 else (int(phi) if phi in (0, 1) else phi))
 
     def on_leaf(leaf):
         if first:
@@ -81,7 +94,7 @@ def check_graph(res, verts, edges, phi, desc, star=False):
         if leaf.exception is not None:
             first.append(("C18:exception", f"bond_percolate raised {leaf.exception!r}", leaf))
             return
-        if (sorted(g.nodes()), sorted(map(sorted, g.edges()))) != before:
+        if (sorted(holder["g"].nodes()), sorted(map(sorted, holder["g"].edges()))) != before:
             first.append(("C18:input-mutated", "the input graph was modified", leaf))
             return
         val = leaf.outcome
@@ -130,6 +143,8 @@ def check_graph(res, verts, edges, phi, desc, star=False):
                 break
     if first:
         key, msg, leaf = first[0]
+        if rewired_from is not None:
+            msg = f"(second call on one graph object that was percolated as {rewired_from} and then edited in place) " + msg
         res.violation(key, f"vertices={verts} edges={edges} phi={phi}: {msg}", desc, verts=verts, edges=edges,
                       phi=str(phi), choices=None if leaf is None else leaf.choices)
     if len(edges) >= 2 and 0 < phi < 1:
@@ -156,6 +171,18 @@ def run_instance(inst, tier):
                         star=inst["kind"] == "star")
             if len(res.violations) >= 5:
                 return res
+        # the same graph reached by editing another graph object in place (one edge moved) after a first call
+        if inst["kind"] == "masks" and len(verts) == 4 and 1 <= len(edges) <= 5:
+            eset = {tuple(sorted(e)) for e in edges}
+            spare = [p for p in enumr.pairs(4) if p not in eset]
+            if spare:
+                old = [e for e in edges[:-1]] + [spare[0]]
+                for phi in (Fraction(0), Fraction(1, 2), Fraction(1)):
+                    check_graph(res, verts, edges, phi, {k: v for k, v in inst.items() if k != "masks"},
+                                rewired_from=old)
+                res.flags.add("rewired-between-calls")
+                if len(res.violations) >= 5:
+                    return res
     if not res.samples and inst["kind"] != "masks":
         res.samples.append({"graph": graphs[0], "phis": [str(p) for p in PHIS]})
     return res
@@ -170,6 +197,11 @@ def finalize(agg, tier):
 def replay(v):
     r = Result()
     check_graph(r, v["verts"], [tuple(e) for e in v["edges"]], Fraction(v["phi"]), {}, star=False)
+    if not r.violations:
+        es = [tuple(e) for e in v["edges"]]
+        spare = [p for p in enumr.pairs(len(v["verts"])) if p not in {tuple(sorted(e)) for e in es}]
+        if spare and es:
+            check_graph(r, v["verts"], es, Fraction(v["phi"]), {}, rewired_from=es[:-1] + [spare[0]])
     for x in r.violations:
         print(x["key"], x["message"])
     return 1 if r.violations else 0
